@@ -20,7 +20,7 @@ from . import ops as O
 from .engine import Ctx, Result, Violation, Foreign, short
 from .fsck import Fsck, bit, F_PAGE, F_CRAWLED
 from .model import Model
-from .simdisk import SimDisk
+from .simdisk import SimDisk, SEAM
 from .twins import run_op, _rules
 
 
@@ -111,7 +111,63 @@ def run_recovered(case, prop, sweep, direction="out"):
     saved_yield = TraphIteratorState.should_yield
     try:
         try:
-            if rec["kind"] == "crash":
+            if rec["kind"] == "disk_full":
+                # the disk fills up in the middle of the history: from some append on, whatever makes a
+                # file grow fails with ENOSPC (rewrites succeed); the error travels through the library,
+                # the process gives up, and the folder is reopened once there is room again
+                import errno
+
+                from .model import Model
+                from .twins import _rules
+
+                log, spans, snaps, ok, why, model = CR.record_history(cfg, case["ops"])
+                if not ok:
+                    res.foreign = why
+                    res.digest = h.hexdigest()
+                    return res
+                n = len(log)
+                apps = [x + 1 for x in range(n) if log[x][2] == "append" and x >= spans[0][1]]
+                rng = random.Random(case.get("obs_seed", 0))
+                for k in sorted(set(rng.sample(apps, min(len(apps), rec.get("cuts", 3))))):
+                    default, rules0 = _rules(cfg)
+                    model2 = Model(default, rules0)
+                    disk = SimDisk()
+                    SEAM.install()
+                    SEAM.use(disk)
+                    sut = O.Sut("sim", default, rules0, disk=disk)
+                    disk.arm_full(k - len(disk.log))
+                    failed_in = None
+                    for oi, op in enumerate(case["ops"]):
+                        refs = O.resolve_refs(op, model2)
+                        if refs is None:
+                            continue
+                        try:
+                            ob = O.exec_sut(sut, op, refs, model2)
+                        except OSError as e:
+                            if e.errno != errno.ENOSPC:
+                                raise
+                            failed_in = oi
+                            break
+                        O.exec_model(model2, op, refs, ob)
+                    try:
+                        sut.close()
+                    except Exception:
+                        pass
+                    if failed_in is None:
+                        continue
+                    i = failed_in + 1
+                    rules = dict(snaps[i - 1][2])
+                    rules.update(snaps[i][2])
+                    try:
+                        t, d = CR.reopen_on({p: bytes(b) for p, b in disk.files.items()}, snaps[i][3], rules)
+                    except TraphException:
+                        continue
+                    opened.append(t)
+                    retry = case["ops"][failed_in:][: rec.get("retry", 0)]
+                    states.append(("disk full from write event %d/%d on (during request #%d), folder reopened" % (k, n, failed_in), t, d, retry, (snaps[i][3], rules)))
+                    res.stats["recovered_disk_full_states"] += 1
+                h.update(repr(("full", len(states))).encode())
+            elif rec["kind"] == "crash":
                 log, spans, snaps, ok, why, model = CR.record_history(cfg, case["ops"])
                 if not ok:
                     res.foreign = why
@@ -245,7 +301,10 @@ def _prepopulate(cfg, ops_list):
 def add_recovered(case, g, rng):
     """Turn a generated sequential case into a recovered-state case."""
     case["ops"] = [o for o in case["ops"] if o["op"] not in ("reopen",)][:16]
-    if rng.random() < 0.5:
+    x_ = rng.random()
+    if x_ < 0.15:
+        case["recovered"] = {"kind": "disk_full", "cuts": rng.choice([2, 3, 4]), "retry": rng.choice([0, 1, 2])}
+    elif x_ < 0.55:
         # "retry": the caller re-submits the interrupted request (and up to two following ones) on the
         # recovered index and the sweep runs again; only on stores whose leftovers are unreferenced
         # blocks (see _benign_leftovers).  VERIF_RETRY=0 switches it off.
